@@ -43,6 +43,7 @@ type Violation struct {
 	Schedule  []int
 	Trace     []string
 	Known     string
+	Syms      []string
 }
 
 type CoverHit struct {
@@ -406,6 +407,14 @@ func (st *State) recordViolation(label string, m *Model) {
 		Values:    st.symValues(m), Choices: append([]int64{}, st.choices...),
 		Schedule: append([]int{}, st.schedule...),
 		Trace:    append(st.stackTrace(), st.trace...)}
+	for i, sr := range st.syms {
+		v.Syms = append(v.Syms, fmt.Sprintf("%s=%d", sr.Name, v.Values[i]))
+	}
+	if m != nil {
+		for _, o := range st.obsTerms {
+			v.Syms = append(v.Syms, fmt.Sprintf("observe %s=%d", o.label, m.Eval(o.t)))
+		}
+	}
 	st.violations = append(st.violations, v)
 }
 
